@@ -262,13 +262,13 @@ func discloseHandler(w *workerCtx, line []byte) (any, error) {
 		} else {
 			obs.Result = "ok"
 		}
-	case <-time.After(20 * time.Second):
+	case <-idleAfter(20 * time.Second):
 		obs.Result, obs.Err = "hung", "session did not finish"
 	}
 	a.Close()
 	select {
 	case <-done:
-	case <-time.After(5 * time.Second):
+	case <-idleAfter(5 * time.Second):
 	}
 	time.Sleep(time.Millisecond)
 	watch.drain(func(dir, n string) bool { return dir == box && (n == "mod" || n == "mm") })
